@@ -682,6 +682,17 @@ func Run(r *common.Run) error {
 		}
 		return nil
 	}
+	if r.Race() {
+		// race-detector run: the concurrent scenarios only, and histories in which
+		// SetCloseDeadline and Close run while Serve is active
+		c.schedules(true)
+		for _, h := range [][]string{{"d"}, {"m", "df", "m", "dp"}, {"df", "c", "p"}, {"y", "dz", "y"}, {"m", "d"}, {"c", "dp"}} {
+			for i := 0; i < 10; i++ {
+				c.hist(true, h, "race")
+			}
+		}
+		return nil
+	}
 	r.Mark("case corpus")
 	for _, h := range [][]string{
 		{"c", "t1"}, {"c", "t2"}, {"c", "t3"}, {"c", "t4"}, {"c", "t5"}, {"c", "t6"}, {"c", "c"},
